@@ -28,7 +28,7 @@ Local Notation length := List.length.
 Inductive leaf := KText (s : bytes) | KDivider | KSpacer | KImage | KImageLink | KButton (s : bytes) | KButtonLink (s : bytes)
                 | KRaw (ts : list tok)                  (* mj-raw: the author's own markup *)
                 | KTable (ts : list tok)                (* mj-table: author's rows inside the component's table *)
-                | KSocial (vertical : bool) (els : list (option bytes))       (* elements without link: their labels *)
+                | KSocial (vertical : bool) (els : list (bool * option bytes)) (* elements: has href?, label *)
                 | KNavbar (hamburger : bool) (links : list bytes)
                 | KAccordion (els : list (option bytes * option bytes))       (* title, text *)
                 | KCarousel (thumbnails : bool) (more : nat).                 (* 1 + more images *)
@@ -61,9 +61,13 @@ Definition raw_seg (ts : list tok) : seg := P (raw_toks ts).
 
 (* pieces of the composite leaves *)
 Definition icon : list tok := [o "table"; o "tbody"; o "tr"; o "td"; o "img"; c "td"; c "tr"; c "tbody"; c "table"].
+Definition icon_a : list tok := [o "table"; o "tbody"; o "tr"; o "td"; o "a"; o "img"; c "a"; c "td"; c "tr"; c "tbody"; c "table"].
 Definition label (e : option bytes) : list tok := match e with Some s => [o "td"; o "span"; tx s; c "span"; c "td"] | None => [] end.
-Definition sel_h (e : option bytes) : seg := P ([o "table"; o "tbody"; o "tr"; o "td"] ++ icon ++ [c "td"] ++ label e ++ [c "tr"; c "tbody"; c "table"]).
-Definition sel_v (e : option bytes) : seg := P ([o "tr"; o "td"] ++ icon ++ [c "td"] ++ label e ++ [c "tr"]).
+Definition label_a (e : option bytes) : list tok := match e with Some s => [o "td"; o "a"; tx s; c "a"; c "td"] | None => [] end.
+(* horizontal mode wraps icon and label of an element with href in a link; vertical mode writes no link at all *)
+Definition sel_h (e : bool * option bytes) : seg :=
+  P ([o "table"; o "tbody"; o "tr"; o "td"] ++ (if fst e then icon_a else icon) ++ [c "td"] ++ (if fst e then label_a (snd e) else label (snd e)) ++ [c "tr"; c "tbody"; c "table"]).
+Definition sel_v (e : bool * option bytes) : seg := P ([o "tr"; o "td"] ++ icon ++ [c "td"] ++ label (snd e) ++ [c "tr"]).
 Definition nav_link (s : bytes) : list seg := [M [o "td"]; P [o "a"; tx s; c "a"]; M [c "td"]].
 Definition acc_el (e : option bytes * option bytes) : list seg :=
   P [o "tr"; o "td"; o "label"] :: N [o "input"] :: P [o "div"] ::
@@ -274,7 +278,7 @@ Proof. unfold raw_toks, raw_okb. destruct (forallb plain ts) eqn:E; cbn [andb]; 
 Lemma raw_seg_plain ts : seg_plain (raw_seg ts) = true. Proof. apply raw_plain. Qed.
 Lemma label_plain e : forallb plain (label e) = true. Proof. destruct e; reflexivity. Qed.
 Lemma sel_h_plain e : seg_plain (sel_h e) = true.
-Proof. unfold sel_h. cbn [seg_plain]. rewrite !forallb_app, label_plain. reflexivity. Qed.
+Proof. destruct e as [[|] [s|]]; reflexivity. Qed.
 Lemma sel_v_plain e : seg_plain (sel_v e) = true.
 Proof. unfold sel_v. cbn [seg_plain]. rewrite !forallb_app, label_plain. reflexivity. Qed.
 Lemma acc_el_plain e : forallb seg_plain (acc_el e) = true.
@@ -399,18 +403,22 @@ Qed.
 Lemma events1 v sg : events v [sg] = seg_events v sg.
 Proof. unfold events. cbn [flat_map]. apply app_nil_r. Qed.
 Ltac runs := repeat (first [rewrite run_eo | rewrite run_ec | rewrite run_te | progress (cbn [app])]).
-Lemma sel_h_some v s : seg_events v (sel_h (Some s)) =
-  eo "table" :: eo "tbody" :: eo "tr" :: eo "td" :: eo "table" :: eo "tbody" :: eo "tr" :: eo "td" :: ec "td" :: ec "tr" :: ec "tbody" :: ec "table" :: ec "td" ::
-  eo "td" :: eo "span" :: te s ++ [ec "span"; ec "td"; ec "tr"; ec "tbody"; ec "table"].
-Proof. destruct v; reflexivity. Qed.
+Lemma sel_h_some v l s : seg_events v (sel_h (l, Some s)) =
+  eo "table" :: eo "tbody" :: eo "tr" :: eo "td" :: eo "table" :: eo "tbody" :: eo "tr" :: eo "td" ::
+  (if l then [eo "a"; ec "a"] else []) ++ ec "td" :: ec "tr" :: ec "tbody" :: ec "table" :: ec "td" ::
+  eo "td" :: (if l then eo "a" else eo "span") :: te s ++ [(if l then ec "a" else ec "span"); ec "td"; ec "tr"; ec "tbody"; ec "table"].
+Proof. destruct v, l; reflexivity. Qed.
 Lemma sel_h_wb v e : wb (seg_events v (sel_h e)).
-Proof. destruct e as [s|]; [rewrite sel_h_some; intros st; now runs|apply balanced_wb; destruct v; vm_compute; reflexivity]. Qed.
-Lemma sel_v_some v s : seg_events v (sel_v (Some s)) =
+Proof.
+  destruct e as [l [s|]]; [|apply balanced_wb; destruct v, l; vm_compute; reflexivity].
+  rewrite sel_h_some. destruct l; intros st; now runs.
+Qed.
+Lemma sel_v_some v l s : seg_events v (sel_v (l, Some s)) =
   eo "tr" :: eo "td" :: eo "table" :: eo "tbody" :: eo "tr" :: eo "td" :: ec "td" :: ec "tr" :: ec "tbody" :: ec "table" :: ec "td" ::
   eo "td" :: eo "span" :: te s ++ [ec "span"; ec "td"; ec "tr"].
 Proof. destruct v; reflexivity. Qed.
 Lemma sel_v_wb v e : wb (seg_events v (sel_v e)).
-Proof. destruct e as [s|]; [rewrite sel_v_some; intros st; now runs|apply balanced_wb; destruct v; vm_compute; reflexivity]. Qed.
+Proof. destruct e as [l [s|]]; [rewrite sel_v_some; intros st; now runs|apply balanced_wb; destruct v; vm_compute; reflexivity]. Qed.
 Lemma events_flat_map {A} v (f : A -> list seg) l : events v (flat_map f l) = flat_map (fun x => events v (f x)) l.
 Proof. induction l as [|x r IH]; cbn [flat_map]; [reflexivity|]. now rewrite events_app, IH. Qed.
 Lemma events_map {A} v (f : A -> seg) l : events v (map f l) = flat_map (fun x => seg_events v (f x)) l.
@@ -826,7 +834,7 @@ Definition leaf_texts (v : view_kind) (k : leaf) : list bytes :=
   match k, v with
   | KText s, _ | KButton s, _ | KButtonLink s, _ => vis s
   | KRaw ts, _ | KTable ts, _ => raw_texts ts
-  | KSocial _ els, _ => flat_map ovis els
+  | KSocial _ els, _ => flat_map (fun e => ovis (snd e)) els
   | KNavbar ham links, _ => (if ham then [lit "~"; lit "~"] else []) ++ flat_map vis links      (* the generated open / close icons *)
   | KAccordion els, _ => flat_map (fun e => ovis (fst e) ++ ovis (snd e)) els
   | KSpacer, _ => [lit "~"]
@@ -857,10 +865,13 @@ Ltac sil := intros v0; destruct v0; reflexivity.
 Lemma texts_cons_eo n l : texts (eo n :: l) = texts l. Proof. reflexivity. Qed.
 Lemma texts_cons_ec n l : texts (ec n :: l) = texts l. Proof. reflexivity. Qed.
 Ltac txs := repeat (first [rewrite texts_cons_eo | rewrite texts_cons_ec | rewrite texts_app | rewrite texts_te | progress (cbn [app])]).
-Lemma sel_h_txt v e : texts (seg_events v (sel_h e)) = ovis e.
-Proof. destruct e as [s|]; [rewrite sel_h_some; txs; unfold ec; cbn [texts flat_map]; now rewrite app_nil_r|destruct v; reflexivity]. Qed.
-Lemma sel_v_txt v e : texts (seg_events v (sel_v e)) = ovis e.
-Proof. destruct e as [s|]; [rewrite sel_v_some; txs; unfold ec; cbn [texts flat_map]; now rewrite app_nil_r|destruct v; reflexivity]. Qed.
+Lemma sel_h_txt v e : texts (seg_events v (sel_h e)) = ovis (snd e).
+Proof.
+  destruct e as [l [s|]]; [|destruct v, l; reflexivity]. rewrite sel_h_some. cbn [snd ovis].
+  destruct l; txs; unfold eo, ec; cbn [texts flat_map app]; now rewrite ?app_nil_r.
+Qed.
+Lemma sel_v_txt v e : texts (seg_events v (sel_v e)) = ovis (snd e).
+Proof. destruct e as [l [s|]]; [rewrite sel_v_some; txs; unfold ec; cbn [texts flat_map snd ovis]; now rewrite app_nil_r|destruct v; reflexivity]. Qed.
 Lemma nav_link_txt v x : texts (events v (nav_link x)) = vis x.
 Proof.
   unfold nav_link. rewrite silent_txt by sil. rewrite events_cons, texts_app.
@@ -899,7 +910,7 @@ Proof.
   9: { (* carousel: images only *) apply carousel_txt. }
   5: { (* table *) cbn [leaf_segs]. rewrite silent_txt by sil. rewrite raw_txt.
        replace (texts (events v [P [c "table"]])) with (@nil bytes) by (destruct v; reflexivity). rewrite app_nil_r. destruct v; reflexivity. }
-  5: { (* social *) assert (R : leaf_texts v (KSocial vert els) = flat_map ovis els) by (destruct v; reflexivity). rewrite R. destruct vert.
+  5: { (* social *) assert (R : leaf_texts v (KSocial vert els) = flat_map (fun e => ovis (snd e)) els) by (destruct v; reflexivity). rewrite R. destruct vert.
        - cbn [leaf_segs]. rewrite silent_txt by sil. rewrite events_app, texts_app, events_map, texts_flat_map.
          replace (texts (events v [P [c "tbody"; c "table"]])) with (@nil bytes) by (destruct v; reflexivity). rewrite app_nil_r.
          apply flat_map_ext. intros e. apply sel_v_txt.
